@@ -521,6 +521,8 @@ def gen_runner_case(rng, tier, profile="matching", **kw):
         name = "S%d" % i
         tick = rng.choice(TICKS_RUNNER)
         p = rng.choice([50, 300, 1000]) * tick
+        if rng.random() < 0.08:
+            p = rng.choice([10 ** 9 + 7, 3 * 10 ** 9]) * tick   # very fine grid relative to the price level
         cfg[name] = {
             "class": "Market",
             "tickSize": tick,
